@@ -122,7 +122,8 @@ def confined(chk, prog, rule, target, allowed, what):
     return n
 
 
-def protocol_rows(chk, prog, rule, methods, with_pacing=False, general=True, per_method=True):
+def protocol_rows(chk, prog, rule, methods, with_pacing=False, general=True, per_method=True, aspects=None):
+    import re as _re
     from gcv import protocol, spec_protocol
     P = protocol.Protocol(prog)
     n_out = 0
@@ -146,6 +147,13 @@ def protocol_rows(chk, prog, rule, methods, with_pacing=False, general=True, per
                     probs += spec_protocol.per_method(method, entry, o)
                 if with_pacing:
                     probs += spec_protocol.pacing_structure(method, entry, o)
+            if aspects is not None:
+                keep = []
+                for p_ in probs:
+                    m_ = _re.match(r"^\[([a-z]+)\] ", p_)
+                    if (m_.group(1) if m_ else "walk") in aspects:
+                        keep.append(p_)
+                probs = keep
             probs = sorted(set(probs))
             chk.inst(rule, key, not probs, detail="; ".join(probs[:4]),
                      sample={"method": method, "entry": entry, "outcomes": len(outs)})
